@@ -488,6 +488,13 @@ fn absorb(st: &mut Stats, ctx: &Ctx, idx: usize, h: &History, trace: &Trace, vs:
                         if c.stdout.contains("error: ") {
                             *st.probes.entry("cli-printed-a-diagnostic".into()).or_default() += 1;
                         }
+                        let n_diag = c.stdout.lines().filter(|l| l.starts_with("error: ")).count();
+                        if n_diag > 20 {
+                            *st.probes.entry("cli-printed-more-than-20-diagnostics-in-one-run".into()).or_default() += 1;
+                        }
+                        if c.stdout.lines().count() > 200 {
+                            *st.probes.entry("cli-printed-more-than-200-lines".into()).or_default() += 1;
+                        }
                         if c.stdout.contains('…') {
                             *st.probes.entry("cli-printed-a-truncated-decimal".into()).or_default() += 1;
                         }
@@ -646,6 +653,15 @@ fn histories_for(ctx: &Ctx, o: &Opts, prop: &str, quick: bool) -> Vec<History> {
             for i in 0..n(400, 20000) {
                 let seed = derive(o.seed, "C18", i as u64);
                 hs.push(gen::c18_random(ctx, &pool, &mut Rng::new(seed), seed));
+            }
+            // one handle that sees many distinct phrases between repetitions; confusable spellings
+            for i in 0..n(24, 600) {
+                let seed = derive(o.seed, "C18-recurrence", i as u64);
+                hs.push(gen::c18_recurrence(ctx, &pool, &mut Rng::new(seed), seed, quick));
+            }
+            for i in 0..n(60, 3000) {
+                let seed = derive(o.seed, "C18-confusable", i as u64);
+                hs.push(gen::c18_confusable(ctx, &pool, &mut Rng::new(seed), seed));
             }
             // the same property with real caller threads whose interleaving the simulator decides
             for i in 0..n(160, 8000) {
@@ -1134,6 +1150,17 @@ fn cmd_replay(o: &Opts) -> i32 {
 
 /// Run every history twice (different job slots, hence different CPUs and scratch paths) and
 /// compare the canonical traces.
+/// Print the histories a run would execute (one JSON document per line), without executing them.
+fn cmd_sample(o: &Opts) -> i32 {
+    let scratch_root = scratch_root();
+    let scratch = Scratch(PathBuf::from(scratch_root).join(format!("verif-sim-{}", std::process::id())));
+    let ctx = setup(o, &scratch.0, false).unwrap_or_else(|e| harness_fail(&e));
+    for h in histories_for(&ctx, o, o.prop.as_str(), o.tier != "thorough") {
+        println!("{}", serde_json::to_string(&h).unwrap_or_default());
+    }
+    0
+}
+
 fn cmd_determinism(o: &Opts) -> i32 {
     let scratch_root = scratch_root();
     let scratch = Scratch(PathBuf::from(scratch_root).join(format!("verif-sim-{}", std::process::id())));
@@ -1266,6 +1293,7 @@ fn main() {
         "replay" => cmd_replay(&o),
         "determinism" => cmd_determinism(&o),
         "mkdata" => cmd_mkdata(&o),
+        "sample" => cmd_sample(&o),
         _ => {
             eprintln!("usage: simctl run --prop <C14|C15|C16|C18|C19> [--tier quick|thorough] [--seed N] [--jobs N] | replay <file> | determinism --prop <id> [--runs N]");
             2
